@@ -393,8 +393,9 @@ class CT:
                 nm = (x[2] or "").split("::")[-1]
                 if x[3] and x[3] != nm:
                     nm += "::" + x[3]
-                if x[4] and any(not f.isdigit() for f in x[4]):
-                    return "%s{%s}" % (nm, ", ".join("%s: %s" % (f, r(v)) for f, v in sorted(((self.ren.get(f, f), v) for f, v in zip(x[4], x[5])), key=lambda fv: fv[0])))
+                names = [self.ren.get(f, f) for f in (x[4] or ())]
+                if names and any(not f.isdigit() for f in names):
+                    return "%s{%s}" % (nm, ", ".join("%s: %s" % (f, r(v)) for f, v in sorted(zip(names, x[5]), key=lambda fv: fv[0])))
                 return "%s(%s)" % (nm, ", ".join(r(v) for v in x[5])) if x[5] else nm
             if x[1] == "array":
                 return "[%s]" % ", ".join(r(v) for v in x[5])
